@@ -127,10 +127,12 @@ func (cp *Processor) verifySessionV2(tok sessionv2.Token, v signatureVerificatio
 		return fmt.Errorf("authenticate session token: %w", err)
 	}
 
-	if v.idContainerSet {
-		if !tok.AssertContainer(v.verbV2, v.idContainer) {
+	// zero v.idContainer (container creation) is matched by wildcard contexts only
+	if !tok.AssertContainer(v.verbV2, v.idContainer) {
+		if v.idContainerSet {
 			return errWrongCID
 		}
+		return errWrongSessionVerb
 	}
 
 	if tok.OriginalIssuer() != v.ownerContainer {
